@@ -66,9 +66,18 @@ def modelJitOutcome (l : Line) : Except String (List String) := do
   return [s!"{r.af},{r.bc},{r.de},{r.hl},{r.sp},{r.ip},{r.cycles}", toString (statusClass st), writes, toString (smallDigest lb.1), pv,
           toString (Cart.getRomBank lb.1.cart)]
 
+/-- `c01.grid`: one instruction run natively from every state of a small operand domain, translated vs interpreted
+(the comparison is made in the harness; the line carries the count and the first differing state) -/
+def checkGrid (l : Line) : Verdict :=
+  if l.outN "n" == 0 then .bad "empty grid"
+  else if l.outN "bad" != 0 then
+    .specDiff s!"instruction {l.inS "code"} over {l.inS "dom"}: translated code differs from the interpreter on {l.outN "bad"} of {l.outN "n"} states, first: {l.outS "first"}"
+  else .ok true
+
 /-- C01 / C02 native differential: translated code vs interpreter on the same block and state.
 A difference is a violation witness (`engine_diff`), reported as IMPL≠SPEC: the interpreter is the reference. -/
 def checkC01 (l : Line) : Verdict :=
+  if l.stream == "c01.grid" then checkGrid l else
   let i := normOutcome (l.outS "i")
   let j := normOutcome (l.outS "j")
   let at_ := l.inN "at"
